@@ -25,6 +25,8 @@ SEQ_CLAIMS = None     # every claim of the unthreaded sub-harness belongs to C05
 
 
 def configs(tier):
+    if tier == 'premise':
+        return [(2, 2)]
     c = [(1, 3), (2, 2), (2, 3)]
     if tier == 'thorough':
         c += [(3, 2), (3, 3)]
@@ -104,7 +106,7 @@ CLAIM_OF = {'safety': 'outputs are f(x0), f(x1), ... in input order, nothing los
             'witness': 'vacuity guard: a complete run (all items received, then None) is reachable within the bound'}
 
 
-def custom_main(tier, seed, mir, repo, get_native, procs):
+def custom_main(tier, seed, mir, repo, get_native, procs, prop=PROPERTY):
     t0 = time.time()
     prog = Program(mir)
     facts = pipe_facts(prog, repo)
@@ -120,7 +122,7 @@ def custom_main(tier, seed, mir, repo, get_native, procs):
     results = run_jobs(jobs_for(tier, mir, repo, facts), procs)
     native = get_native()
     # W = 0: the unthreaded branch of Pipe::new / Pipe::next is interpreted by MIRSE (lazy sequential map)
-    seq = run_unthreaded(tier, mir, repo, native, seed, procs, PROPERTY, SEQ_CLAIMS)
+    seq = run_unthreaded('quick' if tier == 'premise' else tier, mir, repo, native, seed, procs, 'C05', SEQ_CLAIMS)
     violations += seq['violations']
     incon += seq['incon']
     nval = 0
@@ -134,7 +136,7 @@ def custom_main(tier, seed, mir, repo, get_native, procs):
                 incon.append('vacuity guard failed: %s is unreachable in the model' % r['name'])
                 continue
             failed = native_replay(native, r, seed)
-            rec = {'property': PROPERTY, 'claim': CLAIM_OF[r['query']], 'config': {k: r[k] for k in ('W', 'N', 'K', 'cap')},
+            rec = {'property': prop, 'claim': CLAIM_OF[r['query']], 'config': {k: r[k] for k in ('W', 'N', 'K', 'cap')},
                    'n': r.get('n'), 'schedule': r.get('trace'), 'native_failed_claims': failed}
             if failed:
                 violations.append(rec)
@@ -143,7 +145,7 @@ def custom_main(tier, seed, mir, repo, get_native, procs):
                 replays.append(rec)
     if not violations and not incon:
         # the model found nothing: the real Pipe must agree on random runs (otherwise the encoding is wrong)
-        nval = validate_against_impl(native, seed, 25 if tier == 'quick' else 80)
+        nval = validate_against_impl(native, seed, {'quick': 25, 'premise': 8}.get(tier, 80))
     cov = {
         'states': sum(r.get('block_instances', 0) for r in results) or 1,
         'transitions': sum(r.get('steps', 0) * (r.get('W', 0) + 2) for r in results) or 1,
@@ -156,7 +158,7 @@ def custom_main(tier, seed, mir, repo, get_native, procs):
         'visible_blocks': next((r['visible_blocks'] for r in results if r.get('visible_blocks')), None),
         'queries': [{k: r.get(k) for k in ('name', 'result', 'expect', 'solve_s', 'build_s', 'K', 'block_instances')} for r in results],
         'solver_seconds': round(sum(r.get('solve_s', 0) for r in results), 1), 'solver_queries': len(results),
-        'bounds': BOUNDS[tier], 'outside_bounds': OUTSIDE, 'pipe_new_facts': {k: v for k, v in facts.items() if k != 'worker'},
+        'bounds': BOUNDS.get(tier, BOUNDS['quick']), 'outside_bounds': OUTSIDE, 'pipe_new_facts': {k: v for k, v in facts.items() if k != 'worker'},
         'inconclusive_reasons': incon[:6], 'exhaustive': not incon and not violations,
         'unthreaded_branch': seq['coverage'],
     }
